@@ -19,7 +19,7 @@ import (
 	"sync"
 	"time"
 
-	"mcrt"
+	_ "mcrt"
 	"mcrt/explore"
 	"scen"
 )
